@@ -86,7 +86,13 @@ def unit_frame(tier, seed):
     return run_verus_unit('frame', 'frame.vt')
 
 
+def unit_sigtab(tier, seed):
+    import unit_sigtab
+    return run_verus_unit('sigtab', None, builder=unit_sigtab.build)
+
+
 UNITS = {
+    'sigtab': unit_sigtab,
     'frame': unit_frame,
 }
 
@@ -96,6 +102,7 @@ PROPERTY_UNITS = {
     'C05': ['frame'],
     'C13': ['frame'],
     'C06': ['frame'],
+    'C18': ['sigtab'],
 }
 
 PROPERTY_LEVEL = {}
